@@ -337,3 +337,36 @@ func (in *Interp) blockedDump() string {
 	}
 	return out
 }
+
+// yieldPoint: bounded-preemption schedule exploration (vx.Preemptions(k)). Before a lock acquisition or an
+// atomic operation and after a lock release, the running goroutine may be preempted in favour of any other
+// runnable goroutine; which one (or none) is an ordinary decision of the path, so every schedule with at
+// most k preemptions at synchronisation operations is explored. Code between two synchronisation
+// operations runs atomically - sound for data-race-free code, which is what the Go memory model promises
+// sequential consistency for.
+func (in *Interp) yieldPoint(what string) {
+	if in.preempt <= 0 || in.sch == nil || in.mergeDepth > 0 {
+		return
+	}
+	s := in.sch
+	me := s.cur
+	var cands []*coro
+	for _, c := range s.coros {
+		if c != me && s.runnable(c) {
+			cands = append(cands, c)
+		}
+	}
+	if len(cands) == 0 {
+		return
+	}
+	k := in.choose(len(cands) + 1)
+	if k == 0 {
+		return
+	}
+	in.preempt--
+	in.preemptions++
+	if schedTrace {
+		fmt.Fprintf(os.Stderr, "SCHED g%d preempted at %s in favour of g%d%s\n", me.id, what, cands[k-1].id, in.where())
+	}
+	in.switchTo(me, cands[k-1])
+}
